@@ -379,6 +379,9 @@ builtin_exec(spif_charptr_t param)
         }
     } else {
         libast_print_warning("Output file %s could not be created.  (line %lu of file %s)\n", NONULL(OutFile), file_peek_line(), file_peek_path());
+        /* No stream, but the descriptor and the temporary file are still there. */
+        close(fd);
+        remove((char *) OutFile);
     }
     FREE(Command);
 
